@@ -1,6 +1,7 @@
 import Hive.Proofs.SerixCanonical
 import Hive.Proofs.SerixPrim
 import Hive.Proofs.SerixCanonicalValidators
+import Hive.Proofs.SerixCanonicalObjects
 import Hive.Gen.C03_Consts
 import Hive.Gen.C03_Skel
 /-!
@@ -535,6 +536,34 @@ theorem C03_validator_example :
     feed (.one 4) {} [[1, 2, 3, 4], [1, 2, 3, 5], [1, 2, 3, 4, 9], [1, 2, 3]] = [none, none, some .arrTypeUnique, some .invalidBytes] ∧
     feed .lexNd {} [[1], [1, 0], [1, 0], [0], [2]] = [none, none, some .arrUnique, some .arrOrder, none] ∧
     chainFeed (chainInit { noDups := true, one8 := true }) [[7, 1], [7, 2], [7, 1]] = [none, some .arrTypeUnique, some .arrUnique] := by
+  decide
+
+/-- **The payload length marker, one layer below serix** (`ReadPayload` / `WritePayload`, model
+`Hive/Model/SerixC03Objects.lean`): a payload the reader accepts is written back to exactly the bytes consumed — the uint32
+marker holds the number of bytes that follow. -/
+theorem C03_payload_marker_canonical (d d' : De) (bs : Bytes) (hd : d.err = none)
+    (h : deReadPayload d = (d', some (some bs))) :
+    d'.err = none ∧ d.off ≤ d'.off ∧
+    serWritePayload {} .absent (some (some bs)) = { buf := (d.src.drop d.off).take (d'.off - d.off), err := none } :=
+  payload_canonical d d' bs hd h
+
+/-- **Must occur, one layer below serix** (`ReadSliceOfObjects`): what the validating reader accepts contains an object of
+every must-occur type code, judged on the objects. -/
+theorem C03_objects_must_occur (d d' : De) (lp : LP) (r : Rules) (den : Option Den) (must : List Nat) (xs : List Bytes)
+    (hd : d.err = none) (h : deReadObjs d lp r true den must = some (d', some xs, none)) :
+    ∀ m ∈ must, ∃ x ∈ xs, leNat (x.take (denWidth den)) = m :=
+  objs_must_occur d d' lp r den must xs hd h
+
+/-- The hypotheses are satisfiable: a payload of type 3 with a two-byte body; a marker that is one too large is refused
+(`invalid-bytes`), one that is too small as well; a slice of objects without the must-occur type 64 is refused. -/
+theorem C03_objects_example :
+    (let r := deReadPayload { src := [7, 0, 0, 0, 3, 0, 0, 0, 2, 0xaa, 0xbb, 0xcc] }
+     (r.1.off, r.1.err, r.2) = (11, none, some (some [3, 0, 0, 0, 2, 0xaa, 0xbb]))) ∧
+    (deReadPayload { src := [8, 0, 0, 0, 3, 0, 0, 0, 2, 0xaa, 0xbb, 0xcc] }).1.err = some .invalidBytes ∧
+    (deReadPayload { src := [6, 0, 0, 0, 3, 0, 0, 0, 2, 0xaa, 0xbb, 0xcc] }).1.err = some .invalidBytes ∧
+    (deReadObjs { src := [2, 1, 0, 64, 1, 9] } .u8 {} true (some .u8) [64]).map (fun r => (r.1.off, r.2)) =
+      some (6, some [[1, 0], [64, 1, 9]], none) ∧
+    (deReadObjs { src := [2, 1, 0, 2, 1, 9] } .u8 {} true (some .u8) [64]).map (·.2.2) = some (some .typesNotOccurred) := by
   decide
 
 end Validators
